@@ -26,6 +26,7 @@ import (
 	"github.com/agglayer/aggkit/bridgesync"
 	aggsync "github.com/agglayer/aggkit/sync"
 	"github.com/ethereum/go-ethereum/common"
+	"math/big"
 	"verif/h/kit"
 	"verif/h/mc"
 	"verif/h/ref"
@@ -76,7 +77,9 @@ func l1ReorgKinds(tier string) []string {
 	return []string{"ii", "v1", "mix"}
 }
 
-var bridgeReorgKinds = []string{"b1", "b2", "e"}
+// "s1" / "s2": one / two bridges whose hashed fields are all identical to every other "s" bridge (the leaf hash does not
+// cover the deposit count): equal leaves give equal subtrees, i.e. node rows shared between versions of the tree
+var bridgeReorgKinds = []string{"b1", "b2", "e", "s1", "s2"}
 
 // l1Ops expands a block kind into events. Exit roots are fresh (unique per block, rollup, fork)
 // except "same" (the value the rollup already holds: the contract's tree does not change) and
@@ -425,7 +428,13 @@ func mkBridge(shape int, num, pos uint64, dc uint32, salt int) *bridgesync.Bridg
 		b.DepositCount = dc
 		return b
 	}
-	return sk.MakeBridge(num, pos, dc, salt)
+	b := sk.MakeBridge(num, pos, dc, salt)
+	if shape == 2 { // identical leaves
+		b.LeafType, b.OriginNetwork, b.OriginAddress = 0, 0, common.HexToAddress("0x5a5e")
+		b.DestinationNetwork, b.DestinationAddress = 2, common.HexToAddress("0xda5e")
+		b.Amount, b.Metadata = big.NewInt(7), nil
+	}
+	return b
 }
 
 func feedBridges(c *mc.Ctx, node *sk.Node, chain *sk.Chain, shape, n, salt int) bool {
@@ -558,7 +567,7 @@ func runReorg(c *mc.Ctx, p params, dir string) {
 		if p.Store == sk.L1Info {
 			return feedL1(c, node, chain, kind, salt)
 		}
-		return feedBridges(c, node, chain, 0, map[string]int{"b1": 1, "b2": 2, "e": 0}[kind], salt)
+		return feedBridges(c, node, chain, map[bool]int{false: 0, true: 2}[kind[0] == 's'], map[string]int{"b1": 1, "b2": 2, "e": 0, "s1": 1, "s2": 2}[kind], salt)
 	}
 	for _, k := range p.Prefix {
 		if !feed(k, 0) {
